@@ -772,3 +772,18 @@ for _p, _ths in (('C05', ['FV.Tie.computeHexDigest_is_model', 'FV.Tie.validateDi
     PROPS[_p]['lean_modules'] = PROPS[_p]['lean_modules'] + ['FluentVerif.Tie.Handshake']
     PROPS[_p]['theorems'] = PROPS[_p]['theorems'] + _ths
     PROPS[_p]['explanation'] = PROPS[_p]['explanation'] + _SKH_TEXT
+
+# ---- packed / compressed constructors and GzipCompressor (translator/ctors.go -> Gen/Ctors.lean, Sk/Ctors.lean, Tie/Ctors.lean)
+_SKK_THEOREMS = ['FV.Tie.NewPackedForwardMessage_is_model', 'FV.Tie.NewPackedForwardMessageFromBytes_is_model',
+                 'FV.Tie.NewCompressedPackedForwardMessageFromBytes_is_model', 'FV.Tie.NewCompressedPackedForwardMessage_is_model', 'FV.Tie.GzipCompressor_shape']
+_SKK_TEXT = (" Regenerated tie for the packed / compressed constructors: NewPackedForwardMessage[FromBytes], NewCompressedPackedForwardMessage[FromBytes] and "
+             "GzipCompressor.Write / Reset / Bytes are re-read on every run, each statement recognised by its exact source text (anything else `.unknown`), and "
+             "proved to evaluate to newPacked / newCompressedFromBytes / newCompressed for every pooled compressor state (Tie/Ctors.lean) — including that the "
+             "message's stream is a copy of the pooled compressor's buffer.")
+for _p in ('C03', 'C07'):
+    PROPS[_p]['translator'] = True
+    PROPS[_p]['lean_modules'] = PROPS[_p]['lean_modules'] + ['FluentVerif.Tie.Ctors']
+    PROPS[_p]['theorems'] = PROPS[_p]['theorems'] + _SKK_THEOREMS
+    PROPS[_p]['explanation'] = PROPS[_p]['explanation'] + _SKK_TEXT
+    if 'by translation' not in PROPS[_p]['technique']:
+        PROPS[_p]['technique'] = PROPS[_p]['technique'] + '; the constructors are additionally tied by translation (statements regenerated from the Go source on every run, proved to evaluate to the model)'
